@@ -2464,4 +2464,102 @@ theorem C04_int_list_lexes_mindsdb (as : List (List Nat)) (hne : as ≠ [])
     (hall : ∀ a ∈ as, a ≠ [] ∧ ∀ x ∈ a, inSet digitSet x) : lex LexRe_mindsdb.cfg (intsText as) = .ok (intsSegs as) :=
   C04_int_list_lexes _ classOKnum_mindsdb stopOKnum_live.2.2.1 classOKcomma_live.2.2 as hne hall
 
+/-! ### a word in front of a blank (or any other character): decided per word
+
+Blanks are not stop characters for every word: `knowledge base`, `not in`, `is not`, `group by` … are single keyword tokens.  For a
+given word `w` and character `d` the condition `stopOKw cfg d w` (decidable; kernel-evaluable for a concrete word) says that every rule
+in front of `ID` is harmless at `w d`: as in `stopOK`, or its leading classes disagree with `w d`, or they end inside `w` and what
+follows cannot start with the next character of `w` (`blockedLead`). -/
+
+def stopOKw (c : Cfg) (d : Nat) (w : List Nat) : Bool :=
+  match splitAtID c.rules with
+  | none => false
+  | some (pre, idr, _) =>
+    !c.word.mem d &&
+    pre.all (fun r =>
+      (needsOut c.word r.re && noChar d r.re) ||
+      (match kwSets r.re with | some sets => !sets.isEmpty && noChar d r.re | none => false) ||
+      (nonNull r.re && disjointR (first r.re) letterSet) ||
+      blockedLead r.re w d) &&
+    (match idShape idr.re with | some (a, b) => !a.mem d && !b.mem d | none => false)
+
+theorem C04_word_is_ID_at_w (c : Cfg) (hc : classOK c = true) (d : Nat) (pre w rest : List Nat)
+    (hd : stopOKw c d w = true) (hw : PlainWord w) (hk : isKw c w = false) :
+    ∃ idr, idr.name = "ID" ∧ idr.ignored = false ∧
+      firstMatch c.word c.rules ⟨pre, w ++ d :: rest⟩ = some (idr, ⟨w.reverse ++ pre, d :: rest⟩) := by
+  unfold classOK at hc
+  unfold stopOKw at hd
+  unfold isKw at hk
+  cases hs : splitAtID c.rules with
+  | none => rw [hs] at hc; cases hc
+  | some x =>
+    obtain ⟨prer, idr, post⟩ := x
+    rw [hs] at hc hk hd
+    simp only [Bool.and_eq_true, List.all_eq_true, Bool.not_eq_true'] at hc hd
+    obtain ⟨⟨⟨⟨_, hign⟩, hid⟩, hword⟩, _⟩ := hc
+    obtain ⟨⟨hWd, hpre⟩, hidd⟩ := hd
+    obtain ⟨erules, ename⟩ := splitAtID_spec hs
+    obtain ⟨hall, c0, t0, ew, hlet⟩ := hw
+    have hW : ∀ x ∈ w, c.word.mem x = true := fun x hx => allMemR_sound hword (hall x hx)
+    cases hsh : idShape idr.re with
+    | none => rw [hsh] at hid; cases hid
+    | some ab =>
+      obtain ⟨A, B⟩ := ab
+      rw [hsh] at hid hidd
+      simp only [Bool.and_eq_true, Bool.not_eq_true'] at hid hidd
+      obtain ⟨hA, hB⟩ := hid
+      obtain ⟨alt2, ere⟩ := idShape_spec hsh
+      have hAw : ∀ x ∈ w, A.mem x = true := fun x hx => allMemR_sound hA (hall x hx)
+      have hBw : ∃ x ∈ w, B.mem x = true := ⟨c0, by rw [ew]; exact List.mem_cons_self, allMemR_sound hB hlet⟩
+      have hnone : ∀ r ∈ prer, matchAt c.word r.re ⟨pre, w ++ d :: rest⟩ = none := by
+        intro r hr
+        have hok := hpre r hr
+        simp only [Bool.or_eq_true, Bool.and_eq_true] at hok
+        rcases hok with ((ho | hkw) | hf) | hbl
+        · exact matchAt_none_of_needsOut_at ho.1 ho.2 (fun x hx => mem_sound (hW x hx))
+        · cases hks : kwSets r.re with
+          | none => rw [hks] at hkw; cases hkw
+          | some sets =>
+            rw [hks] at hkw
+            simp only [Bool.and_eq_true, Bool.not_eq_true'] at hkw
+            cases hm : matchAt c.word r.re ⟨pre, w ++ d :: rest⟩ with
+            | none => rfl
+            | some q =>
+              have hne : sets ≠ [] := by
+                intro h0; subst h0; simp at hkw
+              have := kw_match_at hks hne hWd hkw.2 hW hm
+              have hk' := (List.any_eq_false.mp hk) r hr
+              rw [hks] at hk'
+              simp only at this hk'
+              rw [this] at hk'
+              exact absurd rfl hk'
+        · have e : w ++ d :: rest = c0 :: (t0 ++ d :: rest) := by rw [ew]; rfl
+          exact matchAt_none_of_first hf.1 hf.2 (p := ⟨pre, w ++ d :: rest⟩) e hlet
+        · exact matchAt_none_of_blocked hbl pre rest
+      have hidm : matchAt c.word idr.re ⟨pre, w ++ d :: rest⟩ = some ⟨w.reverse ++ pre, d :: rest⟩ := by
+        rw [ere]
+        unfold matchAt
+        rw [m_alt]
+        have := idCore_match_stop c.word A B d hidd.1 hidd.2 rest w pre hAw hBw
+        unfold matchAt at this
+        rw [this]
+        rfl
+      refine ⟨idr, ename, hign, ?_⟩
+      rw [erules, firstMatch_skip prer _ hnone]
+      simp [firstMatch, hidm]
+
+/-- examples on the live MindsDB rules, in front of a blank: `tab1`, `selected`, `nothing`, `groups`, `knowledge_x` are fine;
+`knowledge`, `not`, `group` are not (they can continue into a multi-word keyword) -/
+theorem C04_blank_examples :
+    stopOKw LexRe_mindsdb.cfg 32 [116, 97, 98, 49] = true ∧
+    stopOKw LexRe_mindsdb.cfg 32 [115, 101, 108, 101, 99, 116, 101, 100] = true ∧
+    stopOKw LexRe_mindsdb.cfg 32 [110, 111, 116, 104, 105, 110, 103] = true ∧
+    stopOKw LexRe_mindsdb.cfg 32 [103, 114, 111, 117, 112, 115] = true ∧
+    stopOKw LexRe_mindsdb.cfg 32 [107, 110, 111, 119, 108, 101, 100, 103, 101, 95, 120] = true ∧
+    stopOKw LexRe_mindsdb.cfg 32 [107, 110, 111, 119, 108, 101, 100, 103, 101] = false ∧
+    stopOKw LexRe_mindsdb.cfg 32 [110, 111, 116] = false ∧
+    stopOKw LexRe_mindsdb.cfg 32 [103, 114, 111, 117, 112] = false ∧
+    stopOKw LexRe_mindsdb.cfg 10 [116, 97, 98, 49] = true := by
+  decide +kernel
+
 end MindsVerif.Props.C04Lex
